@@ -50,10 +50,10 @@ P = {
              cross_profile=True,
              theorems=['C17_profile_independent', 'C17_run_profile_independent', 'C17_no_assertion_fires', 'C17_sizes_fit']),
  'C06': dict(families=[('mixed', 150, 2500, 120), ('iter', 100, 1500, 120), ('entry', 60, 1000, 120), ('clone', 80, 1200, 120), ('core', 60, 1000, 120)], aspects='RSDK', profiles=['debug', 'release'],
-             theorems=['C06_moves_drop_nothing', 'C06_insert_drops_duplicate_key_only', 'C06_remove_hands_back', 'C06_lookup_drops_nothing', 'C06_reserve_drops_nothing',
+             theorems=['C06_moves_drop_nothing', 'C06_insert_drops_duplicate_key_only', 'C06_insert_conserves', 'C06_extend_conserves', 'C06_remove_hands_back', 'C06_lookup_drops_nothing', 'C06_reserve_drops_nothing',
                        'C06_shrink_drops_nothing', 'C06_iter_drops_nothing', 'C06_clone_drops_nothing', 'C06_eq_drops_nothing', 'C06_clear_drops_each_once', 'C06_drop_map_drops_each_once',
                        'C06_drain_drops_the_rest_once', 'C06_into_iter_drops_the_rest_once', 'C06_retain_conserves_keys', 'C06_drain_filter_conserves_keys', 'C06_lite_reachable']),
- 'C13': dict(families=[('set', 120, 1500, 120)], aspects='RSD', profiles=['debug', 'release'],
+ 'C13': dict(families=[('set', 120, 1500, 120), ('zst', 40, 400, 150)], aspects='RSD', profiles=['debug', 'release'],
              theorems=['C13_element_ops_refine', 'C13_algebra', 'C13_predicates', 'C13_iter_each_once']),
  'C07': dict(families=[('fuse', 300, 4000, 120)], aspects='RSDKA', profiles=['debug', 'release'],
              theorems=['C07_invariant_survives', 'C07_later_calls_behave_normally', 'C07_self_consistent', 'C07_insert_loses_nothing_else', 'C07_reserve_only_loses',
@@ -63,7 +63,7 @@ P = {
                        'C15_extend_is_reference', 'C15_par_set_operations', 'C15_par_set_predicates']),
  'C16': dict(families=[('ser', 120, 1500, 120), ('serset', 120, 1500, 120)], aspects='RSD', profiles=['debug', 'release'],
              theorems=['C16_serialize_exact_len_each_once', 'C16_deserialize_collects', 'C16_roundtrip', 'C16_roundtrip_any_phase', 'C16_in_place_replaces_entirely']),
- 'C05': dict(families=[('mixed', 120, 2000, 120), ('entry', 80, 1500, 120), ('iter', 80, 1500, 120)], aspects='RS', profiles=['debug', 'release'],
+ 'C05': dict(families=[('mixed', 120, 2000, 120), ('entry', 80, 1500, 120), ('iter', 80, 1500, 120), ('zst', 40, 400, 150)], aspects='RS', profiles=['debug', 'release'],
              theorems=['C05_no_fault', 'C05_cursor_agrees']),
 }
 
